@@ -131,26 +131,27 @@ def mutation_corpus(lang, tier):
                     texts.append({"text": s[:i] + c + s[i:]})
         for p in PARAMS:
             texts.append({"text": s, "params": p})
-    nests = [10, 100, 1000] + ([10000, 100000] if tier != "quick" else [10000])
-    opens = {"gql": ["(", "[", "NOT ", "-", "RETURN (", "RETURN [", "RETURN -", "RETURN NOT ", "MATCH (n) WHERE (", "MATCH (n) WHERE NOT ", "MATCH (n)-[]->(", "RETURN CASE WHEN ", "RETURN {a: "],
-             "cypher": ["(", "[", "RETURN (", "RETURN [", "RETURN -", "RETURN NOT ", "MATCH (n) WHERE (", "MATCH (n) WHERE NOT ", "RETURN [x IN ", "RETURN {a: ", "MATCH (a)-->(b)"],
-             "gremlin": ["g.V().where(", "g.V().not(", "g.V().and(", "g.V()" + ".out()", "g.V().repeat(", "(", "__."],
-             "graphql": ["{", "{ a ", "{ person(filter: {", "{ person(filter: [", "[", "query Q { a { "],
-             "sparql": ["SELECT * WHERE { ", "SELECT * WHERE { {", "SELECT * WHERE { OPTIONAL {", "SELECT * WHERE { ?s ?p ?o FILTER(", "SELECT * WHERE { ?s ?p ?o FILTER(!", "(", "SELECT * WHERE { ?s ?p ?o FILTER(-", "SELECT ((("]}[lang]
-    for o in opens:
+    nests = [10, 100, 1000, 3000, 10000] + ([100000] if tier != "quick" else [])
+    # (prefix, repeated unit, innermost text, repeated closer, suffix)
+    forms = {"gql": [("RETURN ", "(", "1", ")", ""), ("RETURN ", "[", "1", "]", ""), ("RETURN ", "NOT ", "true", "", ""), ("RETURN ", "-", "1", "", ""), ("MATCH (n) WHERE ", "(", "true", ")", " RETURN n"),
+                     ("MATCH (n) WHERE ", "NOT ", "true", "", " RETURN n"), ("RETURN ", "CASE WHEN true THEN ", "1", " END", ""), ("RETURN ", "{a: ", "1", "}", ""), ("MATCH (a)", "-->()", "", "", " RETURN a"), ("RETURN 1", " + 1", "", "", "")],
+             "cypher": [("RETURN ", "(", "1", ")", ""), ("RETURN ", "[", "1", "]", ""), ("RETURN ", "NOT ", "true", "", ""), ("RETURN ", "-", "1", "", ""), ("MATCH (n) WHERE ", "(", "true", ")", " RETURN n"),
+                        ("RETURN ", "{a: ", "1", "}", ""), ("RETURN ", "[x IN ", "[1]", " | x]", ""), ("MATCH (a)", "-->()", "", "", " RETURN a"), ("RETURN 1", " + 1", "", "", "")],
+             "gremlin": [("g.V()", ".out()", "", "", ""), ("g.V()", ".where(__", ".out()", ")", ""), ("g.V()", ".not(__", ".out()", ")", ""), ("g.V()", ".repeat(__", ".out()", ").times(1)", ""), ("g.V().has('k', ", "not(", "1", ")", ")"), ("", "(", "g", ")", "")],
+             "graphql": [("", "{ a ", "{ b }", " }", ""), ("{ p(f: ", "{a: ", "1", "}", ") { b } }"), ("{ p(f: ", "[", "1", "]", ") { b } }"), ("", "{", "", "", ""), ("query Q ", "{ a ", "", "", "")],
+             "sparql": [("SELECT * WHERE ", "{ ", "?s ?p ?o", " }", ""), ("SELECT * WHERE { ", "OPTIONAL { ", "?s ?p ?o", " }", " }"), ("SELECT * WHERE { ?s ?p ?o FILTER", "(", "1", ")", " }"), ("SELECT * WHERE { ?s ?p ?o FILTER(", "!", "1", "", ") }"),
+                        ("SELECT * WHERE { ?s ?p ?o FILTER(", "-", "1", "", ") }"), ("SELECT * WHERE { ", "SELECT * WHERE { ", "?s ?p ?o", " }", " }"), ("SELECT ", "(", "1", ")", " WHERE { }"), ("SELECT * WHERE { ?s ", "(", "<http://x/p>", ")", " ?o }")]}[lang]
+    for (pre, unit, inner, closer, suf) in forms:
         for n in nests:
-            texts.append({"text": o * n, "nest": n})
-            texts.append({"text": o * n + "1", "nest": n})
-            closer = {"(": ")", "[": "]", "{": "}"}.get(o.strip()[-1:], "")
-            if closer:
-                texts.append({"text": o * n + "1" + closer * n, "nest": n})
+            texts.append({"text": pre + unit * n + inner + closer * n + suf, "nest": n})     # well formed
+            texts.append({"text": pre + unit * n, "nest": n})                                # cut at the deepest point
+            texts.append({"text": pre + unit * n + inner + closer * (n // 2) + suf, "nest": n})  # unbalanced
     for n in [1000, 100000, 1000000]:
         texts.append({"text": "RETURN '" + "x" * n + "'"})
         texts.append({"text": "RETURN " + "9" * min(n, 100000)})
         texts.append({"text": "a" * n})
         texts.append({"text": "MATCH (" + "n" * min(n, 100000) + ") RETURN 1"})
         texts.append({"text": " " * n})
-        texts.append({"text": "RETURN 1" + " + 1" * min(n, 20000), "nest": min(n, 20000)})
     texts.append({"text": "퟿￿\U0010ffff"})
     return texts
 
